@@ -2,6 +2,7 @@
 # seedround.sh <ids...>: verify then detect candidates (in this snapshot of /verif, against $VP_RUN_REPO)
 cd "$(dirname "$0")/.."
 export VERIF_REPO=${VP_RUN_REPO:-/repo}
+if [ "$VERIF_REPO" = /repo ] && [ -z "$ALLOW_REPO" ]; then echo "refusing to patch /repo itself: use vp run --with-repo (or ALLOW_REPO=1)"; exit 2; fi
 ./check --setup > /dev/null 2>&1
 python3 tools/seedtest.py verify "$@" 2>&1 | tee verify.out
 python3 tools/seedtest.py detect "$@" 2>&1 | tee detect.out
